@@ -241,6 +241,85 @@ def auto_discharge(mir, site_fn, b, bb, t):
     return None
 
 
+def _const_values(b, o, bb):
+    """the constant values an operand origin can take at block bb, or None when it is not a set of constants"""
+    while isinstance(o, tuple) and o and o[0] in ("ref", "deref"):
+        o = o[1]
+    if not isinstance(o, tuple) or not o:
+        return None
+    if o[0] == "const" and o[1] is not None:
+        return [o[1]]
+    if o[0] == "phi" and isinstance(o[1], int):
+        out = []
+        ds = b.reaching_defs(o[1], bb)
+        if not ds:
+            return None
+        for d in ds:
+            v = _const_values(b, b.def_origin(d), d[1] if len(d) > 1 and isinstance(d[1], int) and d[0] != "arg" else bb)
+            if v is None:
+                return None
+            out.extend(v)
+        return out
+    return None
+
+
+def discharge_unreachable_closure(mir, s):
+    """`f(K).unwrap_or_else(|| unreachable!())` where f is a workspace function that is a finite table over its argument
+    (every path decided by comparing the argument with constants) and K can only be constants for which the table
+    returns Some: the closure is never called.  Decided from f's decision table on every run."""
+    m = re.match(r"(.*)::\{closure#\d+\}$", s["fn"])
+    if not m:
+        return None
+    pb = mir.body(m.group(1))
+    if pb is None:
+        return None
+    hits = []
+    for bb, bl in enumerate(pb.blocks):
+        t = bl["term"]
+        if not t or t["k"] != "call":
+            continue
+        args = [pb.origin(a) for a in t["args"]]
+        if any(a[0] == "agg" and a[1] == ("closure", s["fn"]) for a in args if isinstance(a, tuple) and a):
+            hits.append((bb, t, args))
+    if len(hits) != 1:
+        return None
+    bb, t, args = hits[0]
+    if not re.search(r"Option::<T>::unwrap_or_else$", callee(t)[0] or "") or len(args) != 2:
+        return None
+    recv = args[0]
+    if recv[0] != "call" or not recv[2] or len(recv[3]) != 1:
+        return None
+    tb = mir.body(recv[2])
+    if tb is None:
+        return None
+    vals = _const_values(pb, recv[3][0], recv[4])
+    if not vals:
+        return None
+    try:
+        rows = tb.decision_rows()
+    except Exception:
+        return None
+    if not rows:
+        return None
+    for v in vals:
+        matched = 0
+        for conds, ret, _ in rows:
+            ok = True
+            for c in conds:
+                if c[0] != "cond" or c[2] not in ("eq", "ne") or c[4] not in (("arg", 1), ("deref", ("arg", 1))):
+                    return None
+                if (c[2] == "eq") != (v in c[3]):
+                    ok = False
+            if ok:
+                matched += 1
+                if ret[0] != "ret" or ret[1] != "Some":
+                    return None
+        if matched == 0:
+            return None
+    return "closure passed to unwrap_or_else on %s(K), K in {%s}: the callee's decision table returns Some for each of these constants, so the closure is never called" % (
+        recv[2], ", ".join(repr(chr(v)) if 32 <= v < 127 else str(v) for v in sorted(set(vals))))
+
+
 def check_paths(ctx, rep, rule, roots, stop=(), label=None, extra_discharge=None, site_filter=None):
     """A2 as a rule: every panic site reachable from roots must be discharged mechanically, reviewed, or a known finding"""
     inv = Inventory(ctx.mir, roots, stop)
@@ -265,6 +344,8 @@ def check_paths(ctx, rep, rule, roots, stop=(), label=None, extra_discharge=None
                         why = auto_discharge(ctx.mir, s["fn"], b, bb, t)
                         if why:
                             break
+            if why is None and s["kind"] == "panic":
+                why = discharge_unreachable_closure(ctx.mir, s)
             if why is None and extra_discharge is not None:
                 why = extra_discharge(s)
         if why is not None:
